@@ -124,6 +124,16 @@ def main(tier, seed):
                     t_, m_ = rng.choice(cands)
                     kw = "default" if b == "cpp" else "new"
                     m_.params = [(kw, ("prim", "u8")), (kw + "_", ("prim", "u16"))] + m_.params
+            if i % 7 == 6 and b == "js":
+                # directed probe (F54): a member named `constructor` (not a reserved word, but special inside a JS class body)
+                ops = [t for t in prog.types() if t.kind == "opaque"]
+                sts = [t for t in prog.types() if t.kind == "struct"]
+                if sts and (i // 7) % 2:
+                    sts[0].fields.append(("constructor", ("prim", "u8")))
+                elif ops:
+                    pm = tooltier.spec.Method("constructor", ("ref", None), [], ("prim", "u8"))
+                    pm.owner = ops[0]
+                    ops[0].methods.append(pm)
             if i % 7 == 5 and b == "cpp":
                 # directed probe (F39): callback types the C++ fn_traits glue cannot convert
                 ops = [t for t in prog.types() if t.kind == "opaque"]
@@ -303,6 +313,8 @@ def main(tier, seed):
                 key = {"kind": "cpp", "signature": "callback with an Option argument / Option return / primitive-slice argument: fn_traits cannot convert it"}
             elif lang == "cpp" and isinstance(i, int) and i % 7 == 5 and "fn_traits" in msg and "vf_f52" in msg:
                 key = {"kind": "cpp", "signature": "callback with an owned-opaque argument or an Option<struct|enum> argument / return: fn_traits cannot convert it"}
+            elif lang == "js" and isinstance(i, int) and i % 7 == 6 and ("field named 'constructor'" in msg or "only have one constructor" in msg or "constructor may not be" in msg):
+                key = {"kind": "js", "signature": "struct field or method named constructor"}
             elif lang in ("cpp", "c") and isinstance(i, int) and i % 5 == 4 and (KW_LINE.search(msg) or KW_MEMBER.search(msg)):
                 key = {"kind": lang, "signature": "struct field named after a C/C++ keyword"}
             chk.violation("p%s_%s_%s" % (i, lang, re.sub(r"\W", "_", f)[:30]), "program p%s, %s %s: %s" % (i, lang, f, msg[:300]),
